@@ -128,7 +128,18 @@ func runC10(a *args) error {
 			var objs []*storage.Dataset
 			for k := 0; k < 3; k++ {
 				conn, _ := cluster.NewConn(uint64(1+k), fmt.Sprintf("sim-%d", 1+k), "")
-				d, err := storage.VerifNewDataset(cloneDataset(meta), sharedBadger(), raft.NewTransport(uint64(1+k), fmt.Sprintf("sim-%d", 1+k), conn), conn)
+				// the objects see different replica assignments (the third has applied the removal of the replicas of
+				// every third partition, the second a replacement): the owner of an id depends on neither
+				view := cloneDataset(meta)
+				for i, p := range view.Partitions {
+					switch {
+					case k == 2 && i%3 == 1:
+						p.NodeIds = nil
+					case k == 1 && i%2 == 0:
+						p.NodeIds = []uint64{uint64(1 + (i+1)%3), uint64(1 + (i+2)%3)}
+					}
+				}
+				d, err := storage.VerifNewDataset(view, sharedBadger(), raft.NewTransport(uint64(1+k), fmt.Sprintf("sim-%d", 1+k), conn), conn)
 				if err != nil {
 					return err
 				}
@@ -154,6 +165,9 @@ func runC10(a *args) error {
 			for k := 0; k < 200 && bad == ""; k++ {
 				id := uuidFrom(rr)
 				o0 := objs[0].VerifPartitionId(objs[0].VerifOwnerIndex(id))
+				if want := uuid.FromBytesOrNil(meta.Partitions[utils.UuidMod(id, uint64(pc))].Id); o0 != want {
+					bad = fmt.Sprintf("id %s is owned by partition %s on object 0, the catalogue entry lists %s at position UuidMod(id, %d)", id, o0, want, pc)
+				}
 				for j, d := range objs[1:] {
 					if o := d.VerifPartitionId(d.VerifOwnerIndex(id)); o != o0 {
 						bad = fmt.Sprintf("id %s is owned by partition %s on object 0 and by %s on object %d", id, o0, o, j+1)
@@ -162,7 +176,7 @@ func runC10(a *args) error {
 			}
 			st.count(fmt.Sprintf("catalogue-order:%d", pc))
 			if bad != "" {
-				st.ImplFailures = append(st.ImplFailures, implFailure{Case: -1, What: fmt.Sprintf("%d partitions, three Dataset objects built from one catalogue entry (two nodes and a restart): %s", pc, bad), Key: "owner-differs-between-nodes", Input: map[string]interface{}{"partitions": pc}})
+				st.ImplFailures = append(st.ImplFailures, implFailure{Case: -1, What: fmt.Sprintf("%d partitions, three Dataset objects built from one catalogue entry (two nodes and a restart, with differing views of the replica assignment): %s", pc, bad), Key: "owner-differs-between-nodes", Input: map[string]interface{}{"partitions": pc}})
 			}
 		}
 	}
